@@ -523,8 +523,11 @@ func Run[C any](t *testing.T, s Spec[C]) {
 		if err := json.Unmarshal(doc.Case, &c); err != nil {
 			t.Fatalf("cannot decode case in %s: %v", ReplayFile, err)
 		}
-		if f := exec(c); f != nil {
-			report(c, f)
+		for rep := 0; rep < max(1, envInt("VERIF_REPLAY_REPEAT", 1)); rep++ {
+			if f := exec(c); f != nil {
+				report(c, f)
+				break
+			}
 		}
 		return
 	}
